@@ -334,6 +334,19 @@ func (w *world) step(st step, o *stepObs, prev []stepObs) {
 		}
 		o.RespStart, o.RespEnd, o.Written = resp.StartTime, resp.EndTime, resp.RecordsWritten
 		w.written += resp.RecordsWritten
+	case opSchedBookFault:
+		if _, err := w.sq.Exec(`CREATE TRIGGER verif_bookfault BEFORE UPDATE OF last_processed_time ON continuous_queries BEGIN SELECT RAISE(ABORT, 'verif: injected bookkeeping fault'); END`); err != nil {
+			o.Err = "harness: cannot install the fault trigger: " + err.Error()
+			return
+		}
+		resp, err := w.h.ExecuteCQ(context.Background(), w.cqID)
+		_, _ = w.sq.Exec(`DROP TRIGGER IF EXISTS verif_bookfault`)
+		if err != nil {
+			o.Err = err.Error()
+			return
+		}
+		o.RespStart, o.RespEnd, o.Written = resp.StartTime, resp.EndTime, resp.RecordsWritten
+		w.written += resp.RecordsWritten
 	case opManual, opDry, opManualRange:
 		req := map[string]any{}
 		if st.Op == opDry {
